@@ -88,7 +88,7 @@ def build_serve_patch(i):
     captured = {}
 
     def render(name, **ctx):
-        captured.update(options=ctx['options'], opt=ctx['original_publish_time'])
+        captured.update(options=ctx['options'], opt=ctx['original_publish_time'], mpd=ctx.get('mpd'))
         return 'BODY'
 
     def create_context(**kw):
@@ -105,22 +105,38 @@ def build_serve_patch(i):
     fl = NS(request=NS(args={}), make_response=lambda *a: NS(args=a), render_template=render)
     if g('publish_s') > 4 * 10**9:
         raise ValueError('timestamp out of range for a native datetime')
+    EPOCH = datetime.datetime(1970, 1, 1, tzinfo=datetime.timezone.utc)
+    from contracts.errors_fields import CONTEXT_FIELDS
+    if abs(g('ctx_publish_us')) > 4 * 10**15 or abs(g('ctx_now_us')) > 4 * 10**15:
+        raise ValueError('instant out of range for a native datetime')
+
+    def manifest_context(**kw):
+        c = NS(**kw)
+        for name in CONTEXT_FIELDS:
+            setattr(c, name, ('ctx', name))
+        c.publishTime = EPOCH + datetime.timedelta(microseconds=g('ctx_publish_us'))
+        c.now = EPOCH + datetime.timedelta(microseconds=g('ctx_now_us'))
+        return c
+
+    def context_untouched(mpd):
+        return all(getattr(mpd, name, None) == ('ctx', name) for name in CONTEXT_FIELDS) and \
+            mpd.publishTime == EPOCH + datetime.timedelta(microseconds=g('ctx_publish_us')) and \
+            mpd.now == EPOCH + datetime.timedelta(microseconds=g('ctx_now_us'))
     fn = extract_method('dashlive/server/requesthandler/manifest_requests.py', 'ServePatch', 'get', {
         'flask': fl, 'logging': logging, 'html': html, 'math': math, 'datetime': datetime, 'UTC': lambda: datetime.timezone.utc,
-        'current_manifest': mft, 'current_stream': NS(title='t'), 'primary_profiles': {}, 'ManifestContext': lambda **kw: NS(**kw),
+        'current_manifest': mft, 'current_stream': NS(title='t'), 'primary_profiles': {}, 'ManifestContext': manifest_context,
         'PatchTemplateContext': object, 'cast': lambda t, v: v, 'add_allowed_origins': lambda h, methods=None: None})
     me = NS(calculate_options=calc, create_context=create_context)
-    EPOCH = datetime.datetime(1970, 1, 1, tzinfo=datetime.timezone.utc)
     env = {k: b(k) for k in ('bad_options', 'opt_patch', 'opt_timeline', 'feat_timeline', 'feat_patch', 'mode_live_allowed', 'has_mup')}
     env.update(mup_num=g('mup_num'), mup_den=g('mup_den'), publish_s=g('publish_s'),
-               max_age_is=lambda h, v: h.get('Cache-Control') == f'max-age={v}',
+               max_age_is=lambda h, v: h.get('Cache-Control') == f'max-age={v}', context_untouched=context_untouched,
                micros=lambda dt: (dt - EPOCH) // datetime.timedelta(microseconds=1))
 
     def call():
         r = fn(me, 'stream', 'name', g('publish_s'))
         a = r.args
         if isinstance(a[0], tuple):
-            return NS(status=a[0][1], kind='patch', body=NS(options=captured['options'], original_publish_time=captured['opt']), headers=a[0][2])
+            return NS(status=a[0][1], kind='patch', body=NS(options=captured['options'], original_publish_time=captured['opt'], mpd=captured['mpd']), headers=a[0][2])
         return NS(status=a[1], kind='error')
     return {'env': env, 'old_env': dict(env), 'call': call}
 
